@@ -67,6 +67,28 @@ CORPUS = [
     # check_with / coerce given as lists with named methods
     dict(schema={'a': {'check_with': [F.k_odd, F.k_two], 'coerce': [F.c_int, F.c_inc]}, 'b': {'type': 'list', 'schema': {'check_with': F.k_odd}}},
          doc={'a': '2', 'b': [1, 2, 3]}, norm=True),
+    # an *of error without definition errors (noneof with a validating definition, oneof with two) as the only error,
+    # beneath a list schema / a mapping schema / valuesrules / items
+    dict(schema={'a': {'type': 'list', 'schema': {'noneof': [{'type': 'integer'}]}}}, doc={'a': [1]}, norm=False),
+    dict(schema={'a': {'type': 'dict', 'schema': {'b': {'oneof': [{'type': 'integer'}, {'min': 0}]}}}}, doc={'a': {'b': 1}}, norm=False),
+    dict(schema={'a': {'type': 'dict', 'valuesrules': {'noneof': [{'type': 'string'}, {'type': 'integer'}]}}}, doc={'a': {'k': 's'}},
+         norm=False),
+    dict(schema={'a': {'type': 'list', 'items': [{'oneof': [{'type': 'number'}, {'type': 'integer'}]}, {'type': 'string'}]}},
+         doc={'a': [1, 'x']}, norm=False),
+    dict(schema={'a': {'type': 'list', 'schema': {'type': 'dict', 'schema': {'b': {'noneof': [{'allowed': [1, 2]}]}}}}},
+         doc={'a': [{'b': 1}, {'b': 3}]}, norm=False),
+    # an empty mapping under `empty` and a schema with required fields (required / require_all of the field / of the validator)
+    dict(schema={'a': {'type': 'dict', 'empty': True, 'schema': {'b': {'required': True}, 'c': {}}}}, doc={'a': {}}, norm=False),
+    dict(schema={'a': {'type': 'dict', 'empty': False, 'require_all': True, 'schema': {'b': {}, 'c': {}}}}, doc={'a': {}}, norm=False),
+    dict(schema={'a': {'type': 'dict', 'empty': True, 'schema': {'b': {}}}, 'l': {'type': 'list', 'empty': True, 'schema': {'type': 'integer'}}},
+         doc={'a': {}, 'l': []}, cfg={'require_all': True}, norm=False),
+    # keysrules (validating only) beside normalizing valuesrules
+    dict(schema={'m': {'type': 'dict', 'keysrules': {'type': 'string', 'regex': '[a-z]+'},
+                       'valuesrules': {'type': 'integer', 'coerce': F.c_int, 'nullable': False, 'default': 0}}},
+         doc={'m': {'a': '1', 'b': None, 'C': 'x'}}, norm=True),
+    dict(schema={'m': {'type': 'dict', 'keysrules': {'type': 'string'},
+                       'valuesrules': {'type': 'dict', 'schema': {'x': {'type': 'integer', 'coerce': F.c_int}, 'y': {'default': 1}}}}},
+         doc={'m': {'a': {'x': '5'}, 'b': {'x': 'no', 'y': 2}}}, cfg={'purge_unknown': True}, norm=True),
 ]
 
 
